@@ -240,7 +240,9 @@ func (target *TargetGeopackage) writeFeatures(features []processing.Feature) {
 		}
 
 		data := f.Columns()
-		data = append(data, sb)
+		// the columns (and their underlying array) are shared with the other targets, which write concurrently.
+		// so limit the capacity to force append to make a copy, instead of writing to the shared array.
+		data = append(data[:len(data):len(data)], sb)
 
 		_, err = stmt.Exec(data...)
 		if err != nil {
